@@ -242,7 +242,7 @@ Definition lstep (key : Z -> Z) (w : lworld) (op : lop) : lworld * mres :=
   | LPrepend i v => let '(l, s) := nl_insert O v (lget i w) in (upd i l w, MRef i s)
   | LAppends i vs => (upd i (nl_append_all vs (lget i w)) w, MNone)
   | LInsert i k v => let '(l, s) := nl_insert k v (lget i w) in (upd i l w, MIt i (Some s))
-  | LInsertList i k j =>
+  | LInsertList i k j =>                    (* j = i: a copy of the list is inserted, i.e. the values it had before *)
       let '(l, it) := nl_insert_list k (vals (nodes (lget j w))) (lget i w) in (upd i l w, MIt i it)
   | LAppendList i j =>
       let l0 := lget i w in
@@ -261,7 +261,9 @@ Definition lstep (key : Z -> Z) (w : lworld) (op : lop) : lworld * mres :=
   | LEq i j => (w, MBool (nl_eqb (lget i w) (lget j w)))
   | LNe i j => (w, MBool (negb (nl_eqb (lget i w) (lget j w))))
   | LCopy i j => (upd i (nl_append_all (vals (nodes (lget j w))) nl_empty) w, MNone)
-  | LAssign i j => (upd i (nl_append_all (vals (nodes (lget j w))) (nl_clear (lget i w))) w, MNone)
+  | LAssign i j =>                          (* if(this == &other) return *this; clear(); append each *)
+      if Nat.eqb i j then (w, MNone) else
+      (upd i (nl_append_all (vals (nodes (lget j w))) (nl_clear (lget i w))) w, MNone)
   | LSort i => (upd i (nl_sort key (lget i w)) w, MNone)
   end.
 
@@ -392,11 +394,15 @@ Definition astep (w : aworld) (op : aop) : aworld * mres :=
   | ANew i => (upd i a_empty w, MNone)
   | ANewCap i n => (upd i (mk_marr [] n false) w, MNone)
   | ACopy i j => (upd i (a_copy_from (aget j w) a_empty) w, MNone)
-  | AAssign i j => (upd i (a_copy_from (aget j w) (a_clear (aget i w))) w, MNone)
+  | AAssign i j =>                          (* if(this == &other) return *this; *)
+      if Nat.eqb i j then (w, MNone) else
+      (upd i (a_copy_from (aget j w) (a_clear (aget i w))) w, MNone)
   | AReserve i n => (upd i (a_reserve n (aget i w)) w, MNone)
   | AResizeD i n => (upd i (a_resize n 0 (aget i w)) w, MNone)
   | AResize i n v => (upd i (a_resize n v (aget i w)) w, MNone)
   | AAppend i v => let '(a, k) := a_append v (aget i w) in (upd i a w, MRefIdx k)
+  (* j = i: size and values._begin.item are read around reserve() so that the first size() elements of
+     the new storage are copied: the array followed by a copy of itself *)
   | AAppendArr i j => (upd i (a_append_all (items (aget j w)) (aget i w)) w, MNone)
   | AAppendBuf i vs => (upd i (a_append_all vs (aget i w)) w, MNone)
   | ARemoveIdx i k => (upd i (a_remove_idx k (aget i w)) w, MNone)
@@ -408,6 +414,12 @@ Definition astep (w : aworld) (op : aop) : aworld * mres :=
   | AFind i v => (w, MIdx (a_find_from v (items (aget i w)) O))
   | AClear i => (upd i (a_clear (aget i w)) w, MNone)
   | ASwap i j => (upd j (aget i w) (upd i (aget j w) w), MNone)
+  (* append / resize with a reference to an own element: the value is copied before reserve() replaces
+     the storage (`const T copy(value)` when the request exceeds the capacity), so it is the element's
+     value before the operation in every case *)
+  | AAppendOwn i k =>
+      let a0 := aget i w in let '(a, r) := a_append (nth k (items a0) 0) a0 in (upd i a w, MRefIdx r)
+  | AResizeOwn i n k => let a0 := aget i w in (upd i (a_resize n (nth k (items a0) 0) a0) w, MNone)
   end.
 
 Definition aabs (w : aworld) : sstate := map items w.
